@@ -8,6 +8,7 @@ found by a decision procedure over the recorded linear constraints; into_iter se
 size_hint reports num_kmers, and the node iterators visit node i for i = 0..len exactly once each; the k-mer reads it relies
 on (DnaStringSlice::get_kmer remap, DnaString::get_kmer block walk for every k-mer type) return the K bases at the position."""
 from .. import dt_seq, structural, lemmas
+from . import common
 
 ASSUMPTIONS = ["nodes have at least K bases (num_kmers = len - K + 1 does not underflow)", "debug_assert! does not count as a guard (analysed with debug-assertions off)"]
 
@@ -17,6 +18,11 @@ def run(F, rep):
     rep.run(dt_seq.node_kmer_iter_tables, F, rep, "C18.1")
     # the same contract end to end, whatever the iterator's fields are: scripted interleavings on monomorphic instances
     rep.run(lemmas.node_kmer_iter_e2e, F, rep, "C18.7", quick=(rep.tier != "thorough"))
+    # consuming methods the iterator overrides itself (fold, for_each, count, last), if any
+    rep.run(dt_seq.node_iter_consumer_table, F, rep, "C18.8")
+    # every step rolls the k-mer with Kmer::extend_right: its lemma for EVERY k-mer type a graph can be built over (the end-to-end lemma above
+    # instantiates the iterator for three of them)
+    rep.run(common.run_kmer_lemmas, F, rep, {"ext"})
     # the k-mer reads the iterator relies on (first k-mer in into_iter, re-synchronisation after a long skip in nth): the view remap of
     # DnaStringSlice::get_kmer and the block walk of DnaString::get_kmer (every offset for the k-mer types wider than one word)
     rep.run(dt_seq.slice_view_tables, F, rep, "C18.6")
